@@ -57,7 +57,13 @@ def run(ctx):
         "token-holding consumer's Pop with Len() pollers, pushers on a full queue, other poppers) run on "
         "different goroutines released together by a spin barrier with seeded skews, quiescence only "
         "afterwards; the trace spec applies the calls (priq: their halves) in ANY order with Wake steps in "
-        "between; race rounds run in lock-step batches of 20 fresh queues per quiescence",
+        "between; every reply of the race is compared with the order TLC chooses; rounds: consumers entering + "
+        "{close | adds | both}, and {close | try-close | try-clear} x {1-3 adds / prior adds} with and without "
+        "parked consumers on empty / one-item / closed queues; all worlds run in lock-step batches of 20 fresh "
+        "queues per quiescence; the barrier releases only when it has just seen every participant spin",
+        "every trace ends with a sequential observation: IsClosed / IsCleared / Len where the type has them, "
+        "close, PopAnyway until 'closed', TryClear, the accessors again; 'parked' is logged only for a "
+        "goroutine the runtime reports blocked at that moment (otherwise quiescence is awaited again)",
         "priq stress includes Len() pollers and pushers rejected by a full queue (never retried)",
         "what is issued is decided by the harness's own count model of the property (qa.Model), never by "
         "the implementation's replies",
